@@ -321,13 +321,16 @@ class RefState(object):
         return uri
 
 
-ALL_PREFIXES = ("ex", "ex_1", "ex_2", "ex_1_1", "q", "q_1", "dn", "dn_1", "bn", "zz", "foo", "ab", "p2")
+ALL_PREFIXES = ("ex", "ex_1", "ex_2", "ex_3", "ex_1_1", "ex_2_1", "q", "q_1", "q_2", "dn", "dn_1", "dn_2", "dn_3",
+                "dn_2_1", "bn", "zz", "foo", "ab", "p2", "cc")
 
 LOOKALIKES = {
-    "ex": ("ex_1", "ex_2"),
+    "ex": ("ex_1", "ex_2", "ex_3"),
     "ex_1": ("ex_1_1",),
-    "q": ("q_1",),
-    "dn": ("dn_1",),
+    "ex_2": ("ex_2_1",),
+    "q": ("q_1", "q_2"),
+    "dn": ("dn_1", "dn_2", "dn_3"),
+    "dn_2": ("dn_2_1",),
     "prov": ("prov_1",),
     "xsd": ("xsd_1",),
 }
@@ -501,6 +504,38 @@ def apply(st, op, values=None):
         st.ref = model
         rec.add_attributes([(st.spell(aname), val.make(st, scope))])
         _conform(rec, model.sc[scope].records[idx])
+    elif kind == "get":
+        # a lookup: no effect on the content, but it is a call into the container's indexes
+        _, scope, name = op
+        enabled_scope(st, scope)
+        model = _fork(ref)
+        model.use_name(scope, name)
+        st.ref = model
+        st.container(scope).get_record(st.spell(name))
+    elif kind == "addb":
+        # a bundle built on its own (identifier given as a QualifiedName) attached with add_bundle()
+        _, slot, name = op
+        if slot in st.bundles:
+            raise NotEnabled("slot-taken")
+        if name[2][0] != "q":
+            raise NotEnabled("stand-alone-bundle-needs-a-QualifiedName")
+        uri = U[name[0]] + name[1]
+        if uri in ref.bundle_uri.values():
+            raise NotEnabled("duplicate-bundle-id")
+        model = _fork(ref)
+        model.sc[slot] = RefScope()
+        model.bundle_uri[slot] = uri
+        if name[2][1] == "":
+            model.sc[slot].default = U[name[0]]
+        else:
+            model.bind_prefix(slot, name[2][1], U[name[0]])
+        st.ref = model
+        from prov.model import ProvBundle
+        b = ProvBundle(identifier=st.spell(name))
+        st.doc.add_bundle(b)
+        st.bundles[slot] = b
+        if b.identifier is None or b.identifier.uri != uri:
+            raise NonConformance("bundle identifier %r, intended <%s>" % (b.identifier, uri))
     elif kind == "addrec":
         _, tscope, sscope, idx = op
         enabled_scope(st, tscope)
@@ -608,7 +643,9 @@ def _rec_key(r):
 
 
 def _cont_key(c):
-    return (_mgr_key(c._namespaces), tuple(_rec_key(r) for r in c._records))
+    # the lookup index is state too (a lookup of an absent identifier leaves an empty entry behind)
+    idx = tuple((None if k is None else getattr(k, "uri", str(k)), len(v)) for k, v in c._id_map.items())
+    return (_mgr_key(c._namespaces), tuple(_rec_key(r) for r in c._records), idx)
 
 
 def canon(st):
@@ -686,6 +723,11 @@ def render(alphabet, hist, values=None):
                     scope, rkind, ", ".join(call), "None" if idname is None else sp(idname)))
         elif k == "at":
             lines.append("r.add_attributes([(%s, %s)])" % (sp(op[1]), values[op[2]].source))
+        elif k == "get":
+            lines.append("c[%r].get_record(%s)" % (op[1], sp(op[2])))
+        elif k == "addb":
+            lines.append("from prov.model import ProvBundle; c[%r] = ProvBundle(identifier=%s); d.add_bundle(c[%r])" % (
+                op[1], sp(op[2]), op[1]))
         elif k == "addrec":
             lines.append("r = c[%r].add_record(c[%r].get_records()[%d])" % (op[1], op[2], op[3]))
         elif k == "upd":
